@@ -87,7 +87,8 @@ def gen_exact(rng, i):
     T = np.array(T)
     if i % 7 == 3:
         T = np.round(T)      # integer-valued targets (handed over as int64 by the harness); class labels become approximate
-    s.update({"B": T, "classes": cls, "rank1": bool(rng.integers(4) == 0), "relative": bool(rng.integers(4) != 0)})
+    s.update({"B": T, "classes": cls, "rank1": bool(rng.integers(4) == 0), "relative": bool(rng.integers(4) != 0),
+              "registered": bool(rng.integers(5) == 0)})
     return s
 
 
@@ -120,7 +121,8 @@ def chk_exact(inp, c):
                                      baseline=s["baseline"], _where="in_hull_from_A"), k, "in_hull_from_A")
     path = _paths(c)
     est = gen.live_or_new(c, dreye, inp)
-    got_e = _as_bool_array(c, c.call(est.in_gamut, B.copy(), relative=rel, _where="ReceptorEstimator.in_gamut"),
+    got_e = _as_bool_array(c, gen.est_query(c, est, "in_gamut", B.copy(), registered=bool(inp.get("registered")), relative=rel,
+                                            _where="ReceptorEstimator.in_gamut"),
                            k, "in_gamut")
     if rel is False and (inp["K"] is not None or inp["baseline"] is not None):
         c.nontrivial()
